@@ -26,7 +26,7 @@ RULE = ("case = one point of a union of complete sub-lattices.  core: method {No
         "no case is trivial")
 RULE_ADDED = ("Added later: reuse (same operator objects after an in-place update of their tensors), the caller's g"
               'rad mode (torch.no_grad(), operands requiring grad), call-order plane in fresh interpreters. Round 4'
-              ': svd of square Hermitian indefinite operators (flag detected / given / matrix-free).')
+              ': svd of square Hermitian indefinite operators (flag detected / given / matrix-free). Round 7: davidson option max_addition in {1, neig, neig + 2}; svd of the same operator in other units (times 1e-8 / 1e7).')
 ASSUMPTIONS = [
     "A = L Q diag(lam) Q^H L^H, M = c L L^H with Q from QR of a fixed generator stream, kappa(L L^H) = 3, c in "
     "[0.75, 1.5] per M batch element: the exact generalised spectrum is lam / c",
@@ -154,6 +154,14 @@ def cases(tier, seed):
                                         out.append(_sym_case("davidson", M, opkind, "-", n, neig, mode, spec, "f64",
                                                              dav={"v_init": v_init, "nguess": extra,
                                                                   "min_eps": min_eps}))
+                                        if v_init == "randn" and min_eps == 1e-9:
+                                            # documented option max_addition (number of new guesses per iteration)
+                                            # below, at and above neig: same pairs, same accuracy
+                                            for madd in sorted({1, neig, neig + 2} - ({neig} if extra else set())):
+                                                out.append(_sym_case("davidson", M, opkind, "-", n, neig, mode, spec,
+                                                                     "f64", dav={"v_init": v_init, "nguess": extra,
+                                                                                 "min_eps": min_eps,
+                                                                                 "max_addition": madd}))
 
     # ---- svd
     shapes = [(1, 1), (2, 2), (3, 3), (5, 5), (3, 2), (5, 3), (6, 4), (2, 3), (3, 5), (4, 6)]
@@ -177,6 +185,11 @@ def cases(tier, seed):
                                 if m == "davidson":
                                     c.update(DAV_DEFAULT)
                                 out.append(c)
+                                if b == "-" and m != "davidson" and (mm, nn) in ((3, 3), (5, 3), (3, 5), (2, 2)):
+                                    # the same operator in other units (whole operator times 1e-8 / 1e7): singular
+                                    # values scale with it, the factors do not change
+                                    for mag in (1e-8, 1e7):
+                                        out.append(dict(c, mag=mag))
 
     # ---- svd of square Hermitian indefinite operators (flag detected / given by the caller / matrix-free)
     for nn in ((3, 5) if not thorough else (2, 3, 5, 6)):
@@ -259,8 +272,11 @@ def _fwd_opts(cfg):
         return {}
     neig = cfg.get("neig", cfg.get("k"))
     nmax = cfg["n"] if cfg["fam"] == "symeig" else min(cfg["m"], cfg["n"])
-    return {"v_init": cfg["v_init"], "nguess": min(neig + cfg["nguess"], nmax), "min_eps": cfg["min_eps"],
-            "max_niter": 1000}
+    o = {"v_init": cfg["v_init"], "nguess": min(neig + cfg["nguess"], nmax), "min_eps": cfg["min_eps"],
+         "max_niter": 1000}
+    if cfg.get("max_addition"):
+        o["max_addition"] = cfg["max_addition"]
+    return o
 
 
 # ------------------------------------------------------------------ run: symeig
@@ -434,6 +450,8 @@ def run_svd(cfg):
 
     magmix = cfg["batch"] == "2mag"
     Acall = A * MAG.to(dt)[:, None, None] if magmix else A
+    if cfg.get("mag"):
+        Acall = A * cfg["mag"]
     if cfg["sv"] == "symind":
         import xitorch as _xt
         # dense: LinearOperator.m detects the symmetry itself; hflag: flagged by the caller; mfree: mv-only flagged
@@ -461,6 +479,8 @@ def run_svd(cfg):
     u, s, vh = u.detach(), s.detach(), vh.detach()
     if magmix:
         s = s / MAG[:, None]        # every batch element is judged on its own scale
+    if cfg.get("mag"):
+        s = s / cfg["mag"]
     fin = all(bool(torch.isfinite(t).all()) for t in (u, s, vh))
     if not fin:
         return {"viol": [V("non-finite-output", {})], "obs": {"finite": False}, "status": "violation"}
